@@ -16,6 +16,7 @@ import (
 	"math/rand"
 	"time"
 
+	"github.com/Tnze/go-mc/bot"
 	"github.com/Tnze/go-mc/chat"
 	"github.com/Tnze/go-mc/level"
 	"github.com/Tnze/go-mc/level/biome"
@@ -476,6 +477,28 @@ func hostileCommands(rng *rand.Rand, tr *vk.Trace, n int, env *vk.Env) {
 	}
 }
 
+// the bot's dispatch of a received packet: the id is peer-controlled
+func hostileDispatch(rng *rand.Rand, tr *vk.Trace, n int, env *vk.Env) {
+	for i := 0; i < n; i++ {
+		c := bot.NewClient()
+		c.Events.AddGeneric(bot.PacketHandler{Priority: 0, F: func(pk.Packet) error { return nil }})
+		id := []int32{0, 1, 100, 123, 124, 125, 126, 127, 128, 200, 255, 256, 1000, 65535, 1 << 20, 0x7fffffff, -1, -2, -0x80000000}[i%19]
+		if i >= 19 {
+			id = int32(rng.Uint32())
+		}
+		ev := hostileEv{K: "hostile", Decoder: "bot.Client.handlePacket", Class: "other", Sub: "packet-id", Input: []int{}, Line: fmt.Sprint(id)}
+		var err error
+		pan, msg := catch(func() { err = bot.VerifHandlePacket(c, id, []byte{1, 2, 3}) })
+		ev.Msg = msg
+		ev.Outcome = map[bool]string{true: "error", false: "value"}[err != nil]
+		if pan {
+			ev.Outcome = "panic"
+		}
+		tr.Add(ev)
+	}
+	env.Distinct("bot/handlePacket")
+}
+
 func hostileJudge(env *vk.Env, tr *vk.Trace, label string) {
 	v, err := env.ValidateTrace(vk.TLCRun{Name: label, Module: "Hostile", Cfg: "Hostile.cfg", Workers: 4, Continue: true, Timeout: 15 * time.Minute}, "trace.ndjson", tr.Bytes())
 	if err != nil {
@@ -588,6 +611,7 @@ func runC08(env *vk.Env) {
 		hostileMutations(rng, d, tr, env.Pick(2, 12), env)
 	}
 	hostileCommands(rng, tr, env.Pick(12, 80), env)
+	hostileDispatch(rng, tr, env.Pick(60, 600), env)
 	hostileJudge(env, tr, "B named mutations for chunks, entities, text components, registries, command lines")
 }
 
